@@ -86,6 +86,7 @@ type Project struct {
 	SoilID   string            `json:"soil_id"`
 	Soil     Soil              `json:"soil"`
 	Rotation []CropEntry       `json:"rotation"`
+	RotSplit int               `json:"rot_split,omitempty"` // >0: the rotation file lists another field between entry RotSplit-1 and RotSplit of this field
 	Fert     []Fert            `json:"fert,omitempty"`
 	Irr      []Irr             `json:"irr,omitempty"`
 	Till     []Till            `json:"till,omitempty"`
@@ -388,6 +389,11 @@ func (p *Project) RotationTxt() string {
 	var b strings.Builder
 	b.WriteString("Field_ID    crp  sowing harvst Rex yld autorg variety comment\n")
 	for i, r := range p.Rotation {
+		if p.RotSplit > 0 && i == p.RotSplit {
+			// the field's entries come in two blocks with another field's rotation in between
+			fmt.Fprintf(&b, "%-9s %-3s %s %s %03d %03d %d %s\n", "OTHERFLD", "WW", strings.Repeat("-", len(p.ds("2000-01-01"))), p.ds(p.Rotation[0].Harvest), 50, 50, 0, "")
+			fmt.Fprintf(&b, "%-9s %-3s %s %s %03d %03d %d %s\n", "OTHERFLD", "SM", p.ds(p.Rotation[len(p.Rotation)-1].Sow), p.ds(p.Rotation[len(p.Rotation)-1].Harvest), 0, 0, 0, "")
+		}
 		sow := strings.Repeat("-", len(p.ds("2000-01-01")))
 		if i > 0 || r.Sow != "" {
 			if r.Sow != "" {
